@@ -45,38 +45,43 @@ def normalizeIndex (rank : Nat) (index : List Ix) : Option (List Ix) :=
   let idx := idx ++ List.replicate (rank - nSliced) Ix.slice
   if (idx.filter (fun i => !i.isNone)).length > rank then none else some idx
 
+/-- "a boolean mask is equivalent to one integer index array per masked axis": `np.nonzero` gives k one-dimensional arrays -/
+def expandMasks (index : List Ix) : List Ix :=
+  index.flatMap fun c => match c with
+    | .mask k => List.replicate k (Ix.arr 1 true)
+    | c => [c]
+
 structure MapState where
   mapping : List (Option Nat)
-  i : Nat
-  advanced : List Nat
-
-/-- the loop of `_get_index_mapping` -/
-def mapLoop (norm : List Ix) (rank : Nat) : MapState :=
-  norm.foldl (fun st ind =>
-    match ind with
-    | .int => { st with mapping := st.mapping.eraseIdx st.i }
-    | .none => { st with mapping := (st.mapping.take st.i) ++ [none] ++ st.mapping.drop st.i, i := st.i + 1 }
-    | .arr _ _ | .mask _ => { st with advanced := st.advanced ++ [st.i], i := st.i + 1 }
-    | _ => { st with i := st.i + 1 })
-    ⟨(List.range rank).map some, 0, []⟩
+  axis : Nat
+  advancedPosition : Nat
+  seenAdvanced : Bool
 
 /-- `Tensor._get_index_mapping(index)` : for each axis of the result the source axis (`none` = new / collection axis) -/
 def indexMapping (rank : Nat) (index : List Ix) : Option (List (Option Nat)) :=
-  match normalizeIndex rank index with
+  let expanded := expandMasks index
+  let hasArrays := expanded.any Ix.isArray
+  let isAdvanced (c : Ix) : Bool := c.isArray || (hasArrays && c == Ix.int)
+  -- adjacency is decided on the index expression itself (slice, None and Ellipsis separate)
+  let positions := (expanded.zipIdx.filter fun p => isAdvanced p.1).map (·.2)
+  let adjacent := positions == (List.range positions.length).map (positions.headD 0 + ·)
+  match normalizeIndex rank expanded with
   | none => none
   | some norm =>
-    let st := mapLoop norm rank
-    if st.advanced.isEmpty then some st.mapping else
-    -- b = np.broadcast(*[normalized_index[i] for i in advanced_indices])   (positions in the MAPPING are used
-    --   to index the normalized index, as the code does)
-    let bnd := (st.advanced.map fun i => (norm.getD i Ix.slice).bcastNdim).foldl max 0
-    let a0 := st.advanced.headD 0
-    let a1 := st.advanced.getLast?.getD 0
-    if st.advanced ≠ (List.range (a1 + 1 - a0)).map (a0 + ·) then
-      -- `index_mapping.remove(i)` removes the first element EQUAL to i
-      let m := st.advanced.foldl (fun m i => m.erase (some i)) st.mapping
-      some (List.replicate bnd none ++ m)
-    else some (st.mapping.take a0 ++ List.replicate bnd none ++ st.mapping.drop (a1 + 1))
+    let st := norm.foldl (fun (st : MapState) ind =>
+      match ind with
+      | .none => { st with mapping := st.mapping ++ [none] }
+      | ind =>
+        let st := if isAdvanced ind && !st.seenAdvanced
+                  then { st with advancedPosition := st.mapping.length, seenAdvanced := true } else st
+        let st := if ind == Ix.slice then { st with mapping := st.mapping ++ [some st.axis] } else st
+        { st with axis := st.axis + 1 })
+      ⟨[], 0, 0, false⟩
+    if !st.seenAdvanced then some st.mapping else
+    -- b = np.broadcast(*advanced indices)
+    let bnd := ((norm.filter isAdvanced).map Ix.bcastNdim).foldl max 0
+    if !adjacent then some (List.replicate bnd none ++ st.mapping)
+    else some (st.mapping.take st.advancedPosition ++ List.replicate bnd none ++ st.mapping.drop st.advancedPosition)
 
 /-! ### NumPy reference semantics -/
 
@@ -102,8 +107,9 @@ def numpyAxes (rank : Nat) (index : List Ix) : Option (List (Option Nat)) :=
     -- walk: (result axes so far, next source axis, positions (in the result) of advanced components)
     let isAdv (c : Ix) : Bool := c.isArray || (hasArr && c == Ix.int)
     let bnd := (idx.map fun c => match c with | .arr d _ => d | .mask _ => 1 | _ => 0).foldl max 0
-    -- adjacency of the advanced components in the expanded index
-    let advPos := (idx.zipIdx.filter fun p => isAdv p.1).map (·.2)
+    -- adjacency of the advanced components in the index expression as written: a slice, `None` or an Ellipsis (even one
+    -- that stands for no axis at all) between two advanced components separates them
+    let advPos := (index.zipIdx.filter fun p => isAdv p.1).map (·.2)
     let adjacent := advPos == (List.range advPos.length).map (advPos.headD 0 + ·)
     let step (st : List (Option Nat) × Nat × Bool) (c : Ix) : List (Option Nat) × Nat × Bool :=
       let (res, src, placed) := st
